@@ -180,6 +180,48 @@ pub fn run(args: &Args) -> Report {
             }
         }
     }
+    // included files go through the same loader: an A2L include and an A2ML include in every encoding, the main file in
+    // every encoding as well (the two need not agree), compared with the flattened text
+    {
+        let nround = if args.thorough { 60 } else { 4 };
+        for r in 0..nround {
+            let s1 = unicode_string(&mut rng).replace('\u{1}', "x");
+            let inc_text = format!("/begin UNIT u_inc \"{s1} é 😀\" \"u\" DERIVED /end UNIT /* ü \u{10ffff} */\n");
+            let aml_text = "block \"IF_DATA\" taggedunion { \"XCP\" uint; }; /* ä 😀 */\n";
+            let main = |a: &str, b: &str| format!("ASAP2_VERSION 1 71\n/begin PROJECT p \"é\"\n/begin MODULE m \"\"\n/begin A2ML\n{a}/end A2ML\n/begin IF_DATA XCP 5 /end IF_DATA\n{b}/end MODULE\n/end PROJECT\n");
+            let flat = main(aml_text, &inc_text);
+            let Ok(reference) = a2lgen::load(&flat) else {
+                rep.fail("generator", hex(flat.as_bytes()), "include document does not load".into());
+                continue;
+            };
+            for enc_inc in 0..10 {
+                let enc_main = (enc_inc * 3 + r) % 10;
+                let dir = tmp.join(format!("inc{enc_inc}"));
+                let _ = std::fs::create_dir_all(&dir);
+                std::fs::write(dir.join("inc.a2l"), encode(enc_inc, &inc_text)).unwrap();
+                std::fs::write(dir.join("def.aml"), encode((enc_inc + 5) % 10, aml_text)).unwrap();
+                let bytes = encode(enc_main, &main("/include \"def.aml\"\n", "/include \"inc.a2l\"\n"));
+                std::fs::write(dir.join("main.a2l"), &bytes).unwrap();
+                let input = format!("{} main={} a2l-include={} a2ml-include={} {}", ENCODINGS[enc_inc], ENCODINGS[enc_main], ENCODINGS[enc_inc], ENCODINGS[(enc_inc + 5) % 10], hex(inc_text.as_bytes()));
+                rep.case(&(enc_inc, enc_main, &inc_text), true);
+                rep.bump("include-file-encodings");
+                match catch(|| a2lfile::load(dir.join("main.a2l"), None, false)) {
+                    Err(p) => rep.fail("panic", input, format!("load(path) with included files panicked: {p}")),
+                    Ok(Err(e)) => rep.fail("load", input, format!("load(path) with included files failed: {e}")),
+                    Ok(Ok((mut f, log))) => {
+                        a2lfile::A2lObject::merge_includes(&mut f);
+                        let same = f.project.module[0].unit.len() == 1
+                            && f.project.module[0].unit[0].long_identifier == reference.project.module[0].unit[0].long_identifier
+                            && f.project.module[0].if_data.iter().map(|i| i.ifdata_valid).collect::<Vec<_>>() == reference.project.module[0].if_data.iter().map(|i| i.ifdata_valid).collect::<Vec<_>>();
+                        if !log.is_empty() || !same {
+                            rep.fail("model", input, format!("model loaded through included files differs from the flattened text ({} log entries)", log.len()));
+                        }
+                    }
+                }
+                let _ = std::fs::remove_dir_all(&dir);
+            }
+        }
+    }
     // arbitrary bytes
     let nbytes = if args.thorough { 1_200_000 } else { 12_000 };
     let prefixes: [&[u8]; 12] = [b"", &[0xEF, 0xBB, 0xBF], &[0xFF, 0xFE], &[0xFE, 0xFF], &[0xFF, 0xFE, 0, 0], &[0, 0, 0xFE, 0xFF], &[0x41, 0], &[0, 0x41], &[0x41, 0, 0, 0], &[0, 0, 0, 0x41], &[0xD8, 0x00], &[0x00, 0xD8]];
